@@ -71,14 +71,26 @@ def main():
             env = dict(os.environ)
             env["PYTHONPATH"] = mut
             env["VSG_REPO"] = mut
+            # run the checks in a private copy of /verif so that the working directory stays usable
+            vcopy = "/tmp/seedverif_%s" % name
+            sh("rm -rf %s && mkdir -p %s && rsync -a --exclude out --exclude .cache/sweep-* %s/ %s/" % (vcopy, vcopy, VERIF, vcopy))
             for p in props:
                 t0 = time.time()
-                rc, o = sh("./check %s %s" % (p, tier), cwd=VERIF, env=env, timeout=3000)
+                rc, o = sh("./check %s %s" % (p, tier), cwd=vcopy, env=env, timeout=3000)
                 viol = [l for l in o.split("\n") if l.startswith("VIOLATION")]
+                for v in viol:
+                    m2 = re.search(r"replay=(\S+)", v)
+                    if m2 and os.path.exists(m2.group(1)):
+                        try:
+                            rj = json.load(open(m2.group(1)))
+                            out.setdefault("replays", []).append({"prop": p, "site": rj.get("site"), "failure": rj.get("failure"), "detail": str(rj.get("detail"))[:300], "kind": rj.get("kind"), "broken": str(rj.get("broken"))[:300]})
+                        except Exception:
+                            pass
                 out["check_%s" % p] = {"exit": rc, "violations": viol, "wall": round(time.time() - t0), "tail": o[-400:] if rc not in (0, 1) else ""}
     finally:
         for w in (clean, mut):
             sh("git -C /repo worktree remove --force %s" % w)
+        sh("rm -rf /tmp/seedverif_%s" % name)
     print(json.dumps(out, indent=1))
     return 0
 
